@@ -200,6 +200,10 @@ static int new_packet(int sk_fd, int can_socket) {
             return 0;
         }
 
+        // Start every CAN frame from a clean state: flags and data of the
+        // previous ACF message of this packet must not leak into it
+        memset(&frame, 0, sizeof(frame));
+
         can_id = Avtp_Can_GetCanIdentifier((Avtp_Can_t*)acf_pdu);
 
         can_payload = Avtp_Can_GetPayload((Avtp_Can_t*)acf_pdu);
